@@ -907,6 +907,21 @@ func TestReplay(t *testing.T) {
 	if rp == nil {
 		t.Skip("no VERIF_REPLAY")
 	}
+	if rp.Test == "TestPartialResponses" {
+		var pc partialT
+		if err := json.Unmarshal(rp.Case, &pc); err != nil {
+			t.Fatal(err)
+		}
+		fmt.Println("REPLAYED structured")
+		msg, infra := runPartial(pc)
+		if infra != nil {
+			t.Skipf("infrastructure: %v", infra)
+		}
+		if msg != "" {
+			t.Fatalf("property C19 violated: %s", msg)
+		}
+		return
+	}
 	var c Case
 	if err := json.Unmarshal(rp.Case, &c); err != nil {
 		t.Fatal(err)
